@@ -758,6 +758,10 @@ func cmdDriveFault(args []string) error {
 		bucketQ := func(page string) *histQuery {
 			return &histQuery{kind: "net", host: "static.site.com", url: "https://static.site.com/ab/cd", src: "https://" + page + "/", typ: rules.TypeScript}
 		}
+		// every history: a name with three hosts entries that nobody asks for before the fault; the first query for it comes
+		// right after the fault, when none of the three can be read any more
+		pairHost := fmt.Sprintf("threehosts%d.example", hnum)
+		lines = append(lines, "0.0.0.0 "+pairHost, "::1 "+pairHost, "10.1.1.1 "+pairHost+" alias."+pairHost)
 		// every 8th history: the first queries after the fault are asked while a writer holds the cache's lock (as a query
 		// that is inserting a rule it has just parsed does): a reader waits for the writer, it does not go past the cache
 		lockHeld := hnum%8 == 4 && !bulk && !gated
@@ -923,7 +927,9 @@ func cmdDriveFault(args []string) error {
 				out.write(map[string]any{"ev": "recover", "q": "", "got": []string{}, "gotnet": []string{}, "twin": []string{}, "twinnet": []string{}, "ref": []string{}, "kind": "transient", "h": hnum})
 			}
 			var q *histQuery
-			if bucket && i == 0 {
+			if i == faultAt+1 && !bulk {
+				q = &histQuery{kind: "dnsmatch", host: pairHost}
+			} else if bucket && i == 0 {
 				q = bucketQ("bkt-a.test")
 			} else if bucket && i == faultAt {
 				q = bucketQ("bkt-b.test")
@@ -980,6 +986,26 @@ func cmdDriveFault(args []string) error {
 			}
 			out.write(map[string]any{"ev": "query", "q": q.key(), "got": nz(got), "gotnet": nz(gotnet), "twin": nz(twinAll), "twinnet": nz(twinnet),
 				"ref": nz(ref), "kind": pv, "h": hnum})
+		}
+		// at the end of the history every index of the lists is retrieved once more from the faulted storage, in file
+		// order: what comes back is the rule that stands there, or nothing - never the text of another place
+		if !hung {
+			sc := twinSt.NewRuleStorageScanner()
+			for n := 0; n < 400 && sc.Scan(); n++ {
+				tr, idx := sc.Rule()
+				want := fmt.Sprintf("%s@%d", tr.Text(), idx)
+				var got []string
+				pv := safeCall(func() {
+					if rr, _ := st.RetrieveRule(idx); rr != nil {
+						got = []string{fmt.Sprintf("%s@%d", rr.Text(), idx)}
+					}
+				})
+				if pv != "" {
+					got = []string{"PANIC"}
+				}
+				out.write(map[string]any{"ev": "query", "q": fmt.Sprintf("retrieve|%d", idx), "got": nz(got), "gotnet": []string{}, "twin": []string{want}, "twinnet": []string{},
+					"ref": []string{want}, "kind": pv, "h": hnum})
+			}
 		}
 		cleanup()
 		cleanupTwin()
